@@ -44,7 +44,9 @@ RULE = ("static: one obligation per estimator class (frame analysis) and per pub
         "cross_val_score / SplineCV with a randomised cv) over n_splits 1/2/5 x balancing 1/2/10 x int/float/None sizes x shuffle/balance x seeds, twice on "
         "one object and on two identically configured objects; every way a fit / filter / score / grid is rejected, on unfitted and fitted "
         "estimators: all attributes incl. get_params unchanged and the next valid fit identical to a fresh estimator's; "
-        "and estimator method with argument bytes hashed before/after (writable and read-only arrays) and called twice. "
+        "every constructor parameter of every estimator in the forms users pass (tuples / lists / 2-D arrays for force_coords, lists and arrays for "
+        "region / spacing / dampings, numpy scalars, callables): stored as the object passed, clone works, clone and clone-of-fitted behave identically, "
+        "cross_val_score and SplineCV run with it; and estimator method with argument bytes hashed before/after (writable and read-only arrays) and called twice. "
         "Non-trivial = the call is expected to succeed or is a single-fault rejection; distinct = distinct (entry, arguments).")
 ASSUMPTIONS = [
     "frame IR: everything a method does besides accessing attributes of self (numpy, scipy, locals) is an arbitrary function of the "
@@ -1171,6 +1173,7 @@ def generate(tier, seed):
     from . import c20_repeat
     cases += c20_repeat.random_state_cases(vd, rnd, tier)
     cases += c20_repeat.no_trace_cases(vd, rnd, tier, _extra)
+    cases += c20_repeat.clone_param_cases(vd, rnd, tier)
     cases += _purity(vd, rnd, tier)
     return cases
 
@@ -1189,6 +1192,7 @@ def search(disagreeing, tier, seed):
             from . import c20_repeat
             out += c20_repeat.random_state_cases(vd, rnd, "thorough")
             out += c20_repeat.no_trace_cases(vd, rnd, "thorough", {})
+            out += c20_repeat.clone_param_cases(vd, rnd, "thorough")
         out += _history_same_bbox(vd, rnd, "thorough")
         out += _history_params(vd, rnd, "thorough")
         out += _history(vd, rnd, "thorough")
